@@ -185,6 +185,16 @@ type otherUE struct{ n *corebgp.Notification }
 func (o *otherUE) Error() string                         { return "other update error" }
 func (o *otherUE) AsSessionReset() *corebgp.Notification { return o.n }
 
+// wrapUE is a plugin-defined UpdateError that wraps another error.
+type wrapUE struct {
+	n     *corebgp.Notification
+	inner error
+}
+
+func (o *wrapUE) Error() string                         { return "wrapping update error: " + o.inner.Error() }
+func (o *wrapUE) AsSessionReset() *corebgp.Notification { return o.n }
+func (o *wrapUE) Unwrap() error                         { return o.inner }
+
 type foreignErr struct{ id int }
 
 func (f *foreignErr) Error() string { return fmt.Sprintf("foreign#%d", f.id) }
@@ -214,6 +224,10 @@ func mkErr(kind int, tag int) error {
 		return &corebgp.TreatAsWithdrawUpdateErr{Code: uint8(tag)} // nil fallback notification
 	case 10:
 		return errors.Join(&foreignErr{tag}, n)
+	case 11:
+		return &wrapUE{n: &corebgp.Notification{Code: 3, Subcode: 200}, inner: n} // plugin UpdateError wrapping a *Notification
+	case 12:
+		return &wrapUE{n: &corebgp.Notification{Code: 3, Subcode: 201}, inner: &corebgp.TreatAsWithdrawUpdateErr{Code: uint8(tag), Notification: n}}
 	}
 	return nil
 }
@@ -284,10 +298,10 @@ func checkC17(b *B, dec *corebgp.UpdateDecoder[*recorder], in []byte, r *rand.Ra
 		switch r.IntN(4) {
 		case 0: // all nil
 		case 1:
-			plan[r.IntN(len(want))] = 1 + r.IntN(10)
+			plan[r.IntN(len(want))] = 1 + r.IntN(12)
 		default:
 			for k := r.IntN(4); k >= 0; k-- {
-				plan[r.IntN(len(want))] = 1 + r.IntN(10)
+				plan[r.IntN(len(want))] = 1 + r.IntN(12)
 			}
 		}
 	}
@@ -466,6 +480,8 @@ func renderTree(err error) string {
 		return "D" + fmtN(x.Notification)
 	case *otherUE:
 		return "U" + fmtN(x.n)
+	case *wrapUE:
+		return "UW" + fmtN(x.n) + "(" + renderTree(x.inner) + ")"
 	case *foreignErr:
 		return "F"
 	case interface{ Unwrap() error }:
@@ -516,7 +532,7 @@ func countTrees(n int, memo map[int]int) int {
 	if v, ok := memo[n]; ok {
 		return v
 	}
-	total := countTrees(n-1, memo) // wrap
+	total := 2 * countTrees(n-1, memo) // %w wrap, and a plugin-defined UpdateError that wraps
 	for a := 1; a <= n-2; a++ {
 		total += countTrees(a, memo) * countTrees(n-1-a, memo) // join of 2
 	}
@@ -537,6 +553,11 @@ func (g *treeGen) buildTree(n, idx int, memo map[int]int) error {
 	w := countTrees(n-1, memo)
 	if idx < w {
 		return fmt.Errorf("w: %w", g.buildTree(n-1, idx, memo))
+	}
+	idx -= w
+	if idx < w {
+		g.leaf++
+		return &wrapUE{n: &corebgp.Notification{Code: 3, Subcode: uint8(g.leaf), Data: []byte{0x77}}, inner: g.buildTree(n-1, idx, memo)}
 	}
 	idx -= w
 	for a := 1; a <= n-2; a++ {
@@ -591,7 +612,7 @@ func TestC17(t *testing.T) {
 	}
 	// error trees: exhaustive up to maxNodes nodes
 	memo := map[int]int{}
-	maxNodes := c.N(6, 7)
+	maxNodes := c.N(5, 6)
 	bi := 0
 	for n := 1; n <= maxNodes; n++ {
 		cnt := countTrees(n, memo)
